@@ -4,6 +4,7 @@ import (
 	"bytes"
 	"fmt"
 	"os"
+	"time"
 )
 
 // strictNodeOrder turns on an optional oracle that is NOT part of property
@@ -40,6 +41,7 @@ func (s *Sim) fail(code, format string, args ...interface{}) {
 // difference and everything the node sent out since the last check.
 func (s *Sim) check(what string) {
 	r := s.r
+	defer func() { s.agedSince = false }()
 	old := s.proj
 	cur := s.w.readProjection()
 	for _, c := range cur.chans {
@@ -76,6 +78,27 @@ func (s *Sim) check(what string) {
 			continue
 		}
 		o := old.chans[scid]
+		if !s.w.chain.IsSpent(o.outpoint) && s.agedSince {
+			// A zombie prune may have run. Documented rule
+			// (graph.Builder.pruneZombieChans): a channel is pruned when
+			// BOTH edges have not been updated within the prune horizon
+			// (a missing policy counts as stale). One-sided: removal is
+			// accepted exactly when that holds.
+			cut := s.nowTs() - uint32(pruneHorizon/time.Second)
+			stale := true
+			for d := 0; d < 2; d++ {
+				if o.pol[d] != nil && o.pol[d].ts >= cut {
+					stale = false
+				}
+			}
+			if stale {
+				logf(r, "  graph: channel %s pruned as a zombie (both policies older than the horizon)", scidStr(scid))
+				r.Count("graph_chan_removed_zombie")
+				s.zombieSince[scid] = s.nowTs()
+				delete(s.liveUpd, scid)
+				continue
+			}
+		}
 		if !s.w.chain.IsSpent(o.outpoint) {
 			s.fail("chan-removed", "%s: channel %s left the graph although its funding output %v is unspent and no pruning was due",
 				what, scidStr(scid), o.outpoint)
@@ -179,6 +202,18 @@ func (s *Sim) justifyChanAdd(c *pChan, what string) {
 	id := scidStr(c.scid)
 	if c.err != "" {
 		s.fail("chan-unjustified", "%s: channel %s entered the graph in a form that cannot be announced: %s", what, id, c.err)
+	}
+	if since, z := s.zombieSince[c.scid]; z {
+		// A channel that was pruned as a zombie comes back only through
+		// fresh gossip: documented rule of graph.Builder.IsStaleEdgePolicy /
+		// the gossiper's zombie handling - an update for a zombie channel
+		// is fresh only if its timestamp lies within the prune horizon.
+		if !s.liveUpd[c.scid] {
+			s.fail("zombie-resurrected-by-stale-gossip", "%s: channel %s was pruned as a zombie at %d and is back in the graph although no channel_update with a timestamp within the prune horizon was delivered for it since", what, id, since)
+		}
+		r.Count("probe_zombie_channel_resurrected")
+		delete(s.zombieSince, c.scid)
+		delete(s.liveUpd, c.scid)
 	}
 	mi := s.findDelivered(c.wire)
 	if mi == nil || mi.kind != typeChanAnn {
